@@ -5,6 +5,7 @@ import (
 	"encoding/base64"
 	"encoding/json"
 	"fmt"
+	"math"
 	"math/rand"
 	"os"
 	"path/filepath"
@@ -616,7 +617,37 @@ func jsonNorm(v any) any {
 	}
 }
 
+// a subtree the chosen format cannot spell (JSON has no infinity): the encoder's refusal is the operation's error — a caller
+// told "exported" finds a file that imports to an equal subtree
+func c13ExportUnencodable(r *rand.Rand, idx int) Case {
+	file := filepath.Join(c13Dir(), fmt.Sprintf("inf%d.json", idx))
+	defer os.Remove(file)
+	if r.Intn(2) == 0 {
+		_ = os.WriteFile(file, []byte("{\"left\": \"over\"}\n"), 0o644)
+	}
+	d := anyToContainer(map[string]any{"sub": map[string]any{"ok": "v"}, "other": 1})
+	d.AddValueAt("sub.limit", dom.LeafNode(math.Inf(1-2*r.Intn(2))))
+	var err error
+	var fail []string
+	if pn := guard(func() {
+		err = pipeline.New(pipeline.WithData(d)).Execute(&pipeline.ExportOp{File: &pipeline.ValOrRef{Val: file}, Path: &pipeline.ValOrRef{Val: "sub"}, Format: pipeline.OutputFormatJson})
+	}); pn != "" {
+		fail = append(fail, "panic in ExportOp: "+pn)
+	}
+	if err == nil {
+		var back map[string]any
+		bs, _ := os.ReadFile(file)
+		if json.Unmarshal(bs, &back) != nil || back["ok"] != "v" || back["limit"] == nil {
+			fail = append(fail, fmt.Sprintf("export of a subtree holding an infinity as JSON reported success; the file holds %q", string(bs)))
+		}
+	}
+	return Case{Kind: "export", Desc: map[string]any{"unencodable": "json infinity", "err": fmt.Sprint(err)}, Fail: fail, Nontrivial: true, Key: fmt.Sprint("inf", idx)}
+}
+
 func c13Export(r *rand.Rand, idx int) Case {
+	if idx%50 == 6 {
+		return c13ExportUnencodable(r, idx)
+	}
 	o := c13Opts()
 	o.nulls = false
 	data := genDoc(r, o)
